@@ -262,6 +262,11 @@ class CoordinateComponent(Component):
             if view is None:
                 view = Ellipsis
 
+            # A single index array or boolean mask indexes the array as a whole
+            # and should not be interpreted as one entry per dimension.
+            if isinstance(view, np.ndarray):
+                view = (view,)
+
             # If the view is a tuple or list of arrays, we should actually just
             # convert these straight to world coordinates since the indices
             # of the pixel coordinates are the pixel coordinates themselves.
